@@ -20,7 +20,7 @@ bus_deps = OrderedDict([
     ('ACLine', ['bus1', 'bus2']),
     ('ACShort', ['bus1', 'bus2']),
     ('FreqMeasurement', ['bus']),
-    ('Interface', ['bus']),
+    ('Interface', ['bus', 'busa', 'busb', 'busc']),
     ('Motor', ['bus']),
     ('PhasorMeasurement', ['bus']),
     ('StaticACDC', ['bus']),
